@@ -266,7 +266,19 @@ func (e *Engine) inline(fr *Frame, st *State, fn *ssa.Function, binds []Val, arg
 	}
 	nf := e.newFrame(fn, fr)
 	nf.binds = binds
-	if c := e.P.ByFunc[fn]; c != nil {
+	origin := fn
+	if fn.Origin() != nil {
+		origin = fn.Origin()
+		if len(fn.TypeArgs()) > 0 {
+			m := map[*types.TypeParam]types.Type{}
+			tps := origin.TypeParams()
+			for i := 0; i < tps.Len() && i < len(fn.TypeArgs()); i++ {
+				m[tps.At(i)] = fn.TypeArgs()[i]
+			}
+			nf.tsubst = m
+		}
+	}
+	if c := e.P.ByFunc[origin]; c != nil {
 		nf.contract = c
 	} else if fn.Parent() != nil {
 		nf.contract = e.closureContract(fn)
